@@ -3,6 +3,7 @@
 run the named property checks against the copy, report which rules fire.
 
   selftest/mutate.py run [ids...]          run catalogue entries (selftest/mutants.json)
+  entries with "benign": true are behaviour-preserving rewrites on which the checks must stay silent
   selftest/mutate.py patch <file.diff> C01 C07 ...   apply a patch to a scratch copy and run the given checks (or 'all')
 
 The scratch copy lives under a mktemp dir outside /repo and /verif and is removed at once.
@@ -35,16 +36,22 @@ def run_checks(repo, vd, props):
 def one(m):
     d, repo, vd = scratch()
     try:
-        path = os.path.join(repo, m["file"])
-        src = open(path).read()
-        if src.count(m["old"]) < 1:
-            return m["id"], "SKIP", "anchor not found"
-        src = src.replace(m["old"], m["new"], m.get("count", 1))
-        open(path, "w").write(src)
+        for e in m.get("edits") or [m]:
+            path = os.path.join(repo, e["file"])
+            src = open(path).read()
+            if src.count(e["old"]) < 1:
+                return m["id"], "SKIP", "anchor not found"
+            src = src.replace(e["old"], e["new"], e.get("count", 1))
+            open(path, "w").write(src)
         rc, out = run_checks(repo, vd, [m["prop"]])
         if rc is None:
             return m["id"], "NOCOMPILE", out
         fired = [l for l in out.splitlines() if l.startswith("  " + m["prop"]) ]
+        if m.get("benign"):
+            # a behaviour-preserving rewrite: every rule must stay silent
+            if fired or rc != 0:
+                return m["id"], "FALSEALARM", ("; ".join(x.strip()[:200] for x in fired) or out[-300:])
+            return m["id"], "SILENT", "behaviour-preserving rewrite accepted"
         hit = [l for l in fired if m["expect"] in l]
         if hit:
             return m["id"], "CAUGHT", hit[0].strip()[:200]
@@ -72,7 +79,7 @@ def main():
     with concurrent.futures.ThreadPoolExecutor(max_workers=6) as ex:
         for mid, verdict, detail in ex.map(one, todo):
             print(f"{verdict:9} {mid}: {detail}")
-            if verdict in ("MISSED", "NOCOMPILE"):
+            if verdict in ("MISSED", "NOCOMPILE", "FALSEALARM", "SKIP"):
                 bad += 1
     print(f"{len(todo)} mutants, {bad} not caught")
     sys.exit(1 if bad else 0)
